@@ -113,8 +113,9 @@ public:
         if (debug) {
             size_t size = src.size();
             auto pch = UCharCast(src.data());
-            printf("#%03zu ", size); for (size_t i = 0; i < size; i++) printf("%02x", (uint8_t)pch[i]);
-            printf("\n");
+            // debug output belongs to stderr, like the rest of the sighash log: stdout carries the result
+            fprintf(stderr, "#%03zu ", size); for (size_t i = 0; i < size; i++) fprintf(stderr, "%02x", (uint8_t)pch[i]);
+            fprintf(stderr, "\n");
         }
         ctx.Write(UCharCast(src.data()), src.size());
      }
